@@ -73,16 +73,18 @@ impl Property for C01 {
 
     fn run_case(&self, k: u64, rng: &mut Rng, env: &Env, mon: &mut Monitor) {
         let regime = if rng.chance(3, 4) { Regime::D } else { Regime::R };
-        let np = 1 + rng.usize_below(6);
-        let pool = id_pool(rng, np, true);
+        let long = k % 40 == 7;
+        // long messages get a larger id pool so that parts of the message can mention different ids
+        let np = if long { 8 + rng.usize_below(40) } else { 1 + rng.usize_below(6) };
+        let pool = id_pool_lookup(rng, np);
         let mut cfg = FnCfg::new(pool.clone(), regime);
         if env.tier == Tier::Thorough && k % 3 == 0 {
             // the thorough tier also explores larger messages
             cfg.max_terms = 24;
         }
-        if k % 40 == 7 {
+        if long {
             // occasionally a long message (a defect that needs many terms to show)
-            cfg.max_terms = 64;
+            cfg.max_terms = 100;
         }
         let variant = rng.below(5);
         let f = gen_function_variant(rng, &cfg, variant);
